@@ -499,8 +499,15 @@ fn parse_inner<J: Jet>(
                 }
             };
 
-            let name = Option::<Arc<str>>::clone(&data.node.name)
-                .unwrap_or_else(|| Arc::from(namer.assign_name(inner.as_ref()).as_str()));
+            let name = Option::<Arc<str>>::clone(&data.node.name).unwrap_or_else(|| loop {
+                // Do not hand out a name that the program itself defines. (A typed
+                // hole is always called by its own name.)
+                let fresh: Arc<str> = Arc::from(namer.assign_name(inner.as_ref()).as_str());
+                let is_hole = matches!(inner, node::Inner::Witness(WitnessOrHole::TypedHole(..)));
+                if is_hole || !resolved_map.contains_key(&fresh) {
+                    break fresh;
+                }
+            });
 
             let node = NamedConstructNode::new(
                 &inference_context,
